@@ -2,7 +2,11 @@ import OH.Spec.Py
 /-
 Helper lemmas for property C12 (`OH.Props.C12`): the float comparisons of `Coordinates::new`, the
 constructor's decision table, and the reduction of `PyLocation` to the core's own `Localize`
-instances.  Core only (no Mathlib).
+instances (`Sim`: the whole generic pipeline of `iter_range` — filter, merge, map, collected and
+lazily pulled — commutes with wrapping every date-time), the lazily pulled first range as the head of
+the collected ranges (`firstMerged_of_collect`, `firstOfRange_of_iterRange`), the specification's
+`zoneRanges` as the generic pipeline at `TzLocation` (`zoneRanges_eq`, `iterRange_pyAware`), totality.
+Core only (no Mathlib).
 -/
 namespace OH.Proofs.Py
 open OH.Model OH.Model.Py OH.Spec.Py
@@ -282,6 +286,30 @@ theorem mapRanges_sim (l : List Interval) :
       | error p => rfl
       | ok rs => rfl
 
+theorem keepRange_sim (iv : Interval) : keepRange C L iv = keepRange C L' iv := by
+  unfold keepRange
+  rw [S.datetime]
+  cases L'.datetime iv.start with
+  | error p => rfl
+  | ok d =>
+    dsimp only
+    rw [S.naive]
+
+theorem filterRanges_sim (l : List Interval) : filterRanges C L l = filterRanges C L' l := by
+  induction l with
+  | nil => rfl
+  | cons iv rest ih => simp only [filterRanges, keepRange_sim S, ih]
+
+theorem localizeRanges_sim (l : List Interval) :
+    localizeRanges C L l = (match localizeRanges C L' l with
+                            | .error p => .error p
+                            | .ok rs => .ok (rs.map (liftRange g))) := by
+  unfold localizeRanges
+  rw [filterRanges_sim S]
+  cases filterRanges C L' l with
+  | error p => rfl
+  | ok fl => exact mapRanges_sim S _
+
 theorem iterRange_sim (e : C.Expr) (h : C.Hol) (a b : DT) (a' b' : DT')
     (ha : L.naive a = L'.naive a') (hb : L.naive b = L'.naive b') :
     iterRange C L e h a b = (match iterRange C L' e h a' b' with
@@ -291,7 +319,7 @@ theorem iterRange_sim (e : C.Expr) (h : C.Hol) (a b : DT) (a' b' : DT')
   rw [S.ev, ha, hb]
   cases C.iterNaive e h L'.ev (min instEnd (L'.naive a')) (min instEnd (L'.naive b')) with
   | error p => rfl
-  | ok l => exact mapRanges_sim S l
+  | ok l => exact localizeRanges_sim S l
 
 theorem iterFrom_sim (e : C.Expr) (h : C.Hol) (a : DT) (a' : DT') (ha : L.naive a = L'.naive a') :
     iterFrom C L e h a = (match iterFrom C L' e h a' with
@@ -303,14 +331,36 @@ theorem iterFrom_sim (e : C.Expr) (h : C.Hol) (a : DT) (a' : DT') (ha : L.naive 
   | error p => rfl
   | ok stop => exact iterRange_sim S e h a (g stop) a' stop ha (S.naive stop)
 
+theorem nextKept_sim (s : NStream) : nextKept C L s = nextKept C L' s := by
+  induction s with
+  | done => rfl
+  | panic p => rfl
+  | cons iv rest ih => simp only [nextKept, keepRange_sim S, ih]
+
+theorem absorb_sim (curr : Interval) (s : NStream) : absorb C L curr s = absorb C L' curr s := by
+  induction s generalizing curr with
+  | done => rfl
+  | panic p => rfl
+  | cons iv rest ih => simp only [absorb, keepRange_sim S, ih]
+
+theorem firstMerged_sim (s : NStream) : firstMerged C L s = firstMerged C L' s := by
+  unfold firstMerged
+  rw [nextKept_sim S]
+  cases nextKept C L' s with
+  | error p => rfl
+  | ok r =>
+    cases r with
+    | none => rfl
+    | some x => dsimp only; rw [absorb_sim S]
+
 theorem firstOfRange_sim (e : C.Expr) (h : C.Hol) (a b : DT) (a' b' : DT')
     (ha : L.naive a = L'.naive a') (hb : L.naive b = L'.naive b') :
     firstOfRange C L e h a b = (match firstOfRange C L' e h a' b' with
                                 | .error p => .error p
                                 | .ok r => .ok (r.map (liftRange g))) := by
   unfold firstOfRange
-  rw [S.ev, ha, hb]
-  cases C.firstNaive e h L'.ev (min instEnd (L'.naive a')) (min instEnd (L'.naive b')) with
+  rw [S.ev, ha, hb, firstMerged_sim S]
+  cases firstMerged C L' (C.streamNaive e h L'.ev (min instEnd (L'.naive a')) (min instEnd (L'.naive b'))) with
   | error p => rfl
   | ok r =>
     cases r with
@@ -400,90 +450,152 @@ theorem nextChange_before_date_end {DT : Type} (L : Localize C DT) (e : C.Expr) 
           cases hr
           omega
 
+/-- the first item of `iter_range`, when there is one, is some naive range with its bounds mapped -/
+theorem firstOfRange_some {DT : Type} (L : Localize C DT) (e : C.Expr) (h : C.Hol) (a b : DT) (r : Range DT)
+    (hr : firstOfRange C L e h a b = .ok (some r)) : ∃ iv, mapRange C L iv = .ok r := by
+  unfold firstOfRange at hr
+  cases hf : firstMerged C L (C.streamNaive e h L.ev (min instEnd (L.naive a)) (min instEnd (L.naive b))) with
+  | error p => rw [hf] at hr; cases hr
+  | ok f =>
+    rw [hf] at hr
+    cases f with
+    | none => cases hr
+    | some iv =>
+      dsimp only at hr
+      cases hm : mapRange C L iv with
+      | error p => rw [hm] at hr; cases hr
+      | ok r' => rw [hm] at hr; cases hr; exact ⟨iv, hm⟩
+
+/-- whatever `next_change` returns is `locale.datetime(n)` of some wall-clock reading `n` -/
+theorem nextChange_some_datetime {DT : Type} (L : Localize C DT) (e : C.Expr) (h : C.Hol) (t x : DT)
+    (hx : Py.nextChange C L e h t = .ok (some x)) : ∃ n, L.datetime n = .ok x := by
+  unfold Py.nextChange at hx
+  cases hE : L.datetime instEnd with
+  | error p => rw [hE] at hx; cases hx
+  | ok stop =>
+    rw [hE] at hx
+    dsimp only at hx
+    cases hf : firstOfRange C L e h t stop with
+    | error p => rw [hf] at hx; cases hx
+    | ok f =>
+      rw [hf] at hx
+      cases f with
+      | none => cases hx
+      | some r =>
+        dsimp only at hx
+        obtain ⟨iv, hm⟩ := firstOfRange_some C L e h t stop r hf
+        unfold mapRange at hm
+        cases hs : L.datetime iv.start with
+        | error p => rw [hs] at hm; cases hm
+        | ok s =>
+          rw [hs] at hm
+          dsimp only at hm
+          cases ht : L.datetime iv.stop with
+          | error p => rw [ht] at hm; cases hm
+          | ok t' =>
+            rw [ht] at hm
+            cases hm
+            split at hx
+            · cases hx
+            · cases hx; exact ⟨iv.stop, ht⟩
+
 /-- on an aware locale whatever `next_change` returns was built by `loc.datetime`: aware, in the
 zone of the context — for naive and for aware inputs -/
 theorem nextChange_pyAware_some (loc : TzLoc C.Zone) (e : C.Expr) (h : C.Hol)
     (t x : DateTimeMaybeAware C.Zone)
     (hx : Py.nextChange C (pyLocalize C (.aware loc)) e h t = .ok (some x)) :
     ∃ u, x = .aware ⟨u, loc.tz⟩ := by
-  unfold Py.nextChange at hx
-  rw [(sim_pyAware C loc).datetime] at hx
-  cases hE : (tzLocation C loc).datetime instEnd with
-  | error p => rw [hE] at hx; cases hx
-  | ok stop =>
-    rw [hE] at hx
-    dsimp only at hx
-    unfold firstOfRange at hx
-    cases hf : C.firstNaive e h (pyLocalize C (.aware loc)).ev
-        (min instEnd ((pyLocalize C (.aware loc)).naive t))
-        (min instEnd ((pyLocalize C (.aware loc)).naive (.aware stop))) with
-    | error p => rw [hf] at hx; cases hx
-    | ok f =>
-      rw [hf] at hx
-      cases f with
-      | none => cases hx
-      | some iv =>
-        dsimp only at hx
-        rw [mapRange_sim (sim_pyAware C loc)] at hx
-        unfold mapRange at hx
-        cases hs : (tzLocation C loc).datetime iv.start with
-        | error p => rw [hs] at hx; cases hx
-        | ok s =>
-          rw [hs] at hx
-          dsimp only at hx
-          cases ht : (tzLocation C loc).datetime iv.stop with
-          | error p => rw [ht] at hx; cases hx
-          | ok t' =>
-            rw [ht] at hx
-            dsimp only [liftRange] at hx
-            split at hx
-            · cases hx
-            · cases hx
-              simp only [tzLocation] at ht
-              cases hd : C.tzDatetime loc.tz iv.stop with
-              | error p => rw [hd] at ht; cases ht
-              | ok u => rw [hd] at ht; cases ht; exact ⟨u, rfl⟩
+  obtain ⟨n, hn⟩ := nextChange_some_datetime C _ e h t x hx
+  simp only [pyLocalize, tzLocation] at hn
+  cases hd : C.tzDatetime loc.tz n with
+  | error p => rw [hd] at hn; cases hn
+  | ok u => rw [hd] at hn; cases hn; exact ⟨u, rfl⟩
 
 /-! ## results of the core's `TzLocation` -/
 
 /-- the core's `TzLocation` results are expressed in the zone of the context -/
 theorem core_next_change_zone (loc : TzLoc C.Zone) (e : C.Expr) (h : C.Hol) (a r : Aware C.Zone)
     (hr : Py.nextChange C (tzLocation C loc) e h a = .ok (some r)) : r.zone = loc.tz := by
-  unfold Py.nextChange at hr
-  cases hE : (tzLocation C loc).datetime instEnd with
-  | error p => rw [hE] at hr; cases hr
-  | ok stop =>
-    rw [hE] at hr
-    dsimp only at hr
-    unfold firstOfRange at hr
-    cases hf : C.firstNaive e h (tzLocation C loc).ev (min instEnd ((tzLocation C loc).naive a))
-        (min instEnd ((tzLocation C loc).naive stop)) with
-    | error p => rw [hf] at hr; cases hr
-    | ok f =>
-      rw [hf] at hr
-      cases f with
-      | none => cases hr
-      | some iv =>
-        dsimp only at hr
-        unfold mapRange at hr
-        cases hs : (tzLocation C loc).datetime iv.start with
-        | error p => rw [hs] at hr; cases hr
-        | ok s =>
-          rw [hs] at hr
-          dsimp only at hr
-          cases ht : (tzLocation C loc).datetime iv.stop with
-          | error p => rw [ht] at hr; cases hr
-          | ok t' =>
-            rw [ht] at hr
-            dsimp only at hr
-            split at hr
-            · cases hr
-            · cases hr
-              simp only [tzLocation] at ht
-              cases hd : C.tzDatetime loc.tz iv.stop with
-              | error p => rw [hd] at ht; cases ht
-              | ok u => rw [hd] at ht; cases ht; rfl
+  obtain ⟨n, hn⟩ := nextChange_some_datetime C _ e h a r hr
+  simp only [tzLocation] at hn
+  cases hd : C.tzDatetime loc.tz n with
+  | error p => rw [hd] at hn; cases hn
+  | ok u => rw [hd] at hn; cases hn; rfl
 
+
+/-! ## the localized stream of a zone, in the specification's words -/
+
+theorem awareRanges_eq (loc : TzLoc C.Zone) (l : List Interval) :
+    awareRanges C loc.tz l = mapRanges C (tzLocation C loc) l := by
+  induction l with
+  | nil => rfl
+  | cons iv rest ih =>
+    simp only [awareRanges, mapRanges, ih]
+    have : awareRange C loc.tz iv = mapRange C (tzLocation C loc) iv := by
+      simp only [awareRange, mapRange, tzLocation]
+      cases C.tzDatetime loc.tz iv.start with
+      | error p => rfl
+      | ok s =>
+        dsimp only
+        cases C.tzDatetime loc.tz iv.stop with
+        | error p => rfl
+        | ok t => rfl
+    rw [this]
+    cases mapRange C (tzLocation C loc) iv with
+    | error p => rfl
+    | ok x => cases mapRanges C (tzLocation C loc) rest <;> rfl
+
+theorem dropSkipped_eq (loc : TzLoc C.Zone) (l : List Interval) :
+    dropSkipped C loc.tz l = filterRanges C (tzLocation C loc) l := by
+  induction l with
+  | nil => rfl
+  | cons iv rest ih =>
+    simp only [dropSkipped, filterRanges, ih]
+    have : keepRange C (tzLocation C loc) iv = (match landing C loc.tz iv.start with
+                                                | .error p => .error p
+                                                | .ok n => .ok (decide (n < iv.stop))) := by
+      simp only [keepRange, landing, tzLocation]
+      cases C.tzDatetime loc.tz iv.start <;> rfl
+    rw [this]
+    cases landing C loc.tz iv.start with
+    | error p => rfl
+    | ok n =>
+      dsimp only
+      cases filterRanges C (tzLocation C loc) rest with
+      | error p => rfl
+      | ok xs =>
+        dsimp only
+        by_cases hn : n < iv.stop <;> simp [hn]
+
+/-- `zoneRanges` IS the generic `iter_range` pipeline at the core's `TzLocation` -/
+theorem zoneRanges_eq (loc : TzLoc C.Zone) (l : List Interval) :
+    zoneRanges C loc.tz l = localizeRanges C (tzLocation C loc) l := by
+  unfold zoneRanges localizeRanges
+  rw [dropSkipped_eq]
+  cases filterRanges C (tzLocation C loc) l with
+  | error p => rfl
+  | ok fl => exact awareRanges_eq C loc _
+
+/-- `iter_range` of the binding's locale for a context with a zone, in the specification's words -/
+theorem iterRange_pyAware (loc : TzLoc C.Zone) (e : C.Expr) (h : C.Hol) (a b : DateTimeMaybeAware C.Zone) :
+    iterRange C (pyLocalize C (.aware loc)) e h a b
+      = (match C.iterNaive e h (.tzLocation loc)
+                (min instEnd (wall C (.aware loc) a)) (min instEnd (wall C (.aware loc) b)) with
+         | .error p => .error p
+         | .ok l =>
+           match zoneRanges C loc.tz l with
+           | .error p => .error p
+           | .ok rs => .ok (rs.map (liftRange .aware))) := by
+  unfold iterRange
+  rw [pyLocalize_naive, pyLocalize_naive,
+    show (pyLocalize C (.aware loc)).ev = EvLoc.tzLocation loc from rfl]
+  cases C.iterNaive e h (.tzLocation loc) (min instEnd (wall C (.aware loc) a))
+      (min instEnd (wall C (.aware loc) b)) with
+  | error p => rfl
+  | ok l =>
+    dsimp only
+    rw [localizeRanges_sim (sim_pyAware C loc), zoneRanges_eq]
+    cases localizeRanges C (tzLocation C loc) l <;> rfl
 
 /-! ## the iterator's items -/
 
@@ -549,6 +661,187 @@ theorem mapRanges_total {DT : Type} (L : Localize C DT) (hL : ∀ n, ∃ d, L.da
     simp only [mapRanges, hr, hrs]
     exact ⟨_, rfl⟩
 
+theorem keepRange_total {DT : Type} (L : Localize C DT) (hL : ∀ n, ∃ d, L.datetime n = .ok d) (iv : Interval) :
+    ∃ k, keepRange C L iv = .ok k := by
+  obtain ⟨d, hd⟩ := hL iv.start
+  simp only [keepRange, hd]
+  exact ⟨_, rfl⟩
+
+theorem filterRanges_total {DT : Type} (L : Localize C DT) (hL : ∀ n, ∃ d, L.datetime n = .ok d) (l : List Interval) :
+    ∃ r, filterRanges C L l = .ok r := by
+  induction l with
+  | nil => exact ⟨_, rfl⟩
+  | cons iv rest ih =>
+    obtain ⟨k, hk⟩ := keepRange_total C L hL iv
+    obtain ⟨xs, hxs⟩ := ih
+    simp only [filterRanges, hk, hxs]
+    exact ⟨_, rfl⟩
+
+theorem localizeRanges_total {DT : Type} (L : Localize C DT) (hL : ∀ n, ∃ d, L.datetime n = .ok d) (l : List Interval) :
+    ∃ r, localizeRanges C L l = .ok r := by
+  obtain ⟨fl, hfl⟩ := filterRanges_total C L hL l
+  simp only [localizeRanges, hfl]
+  exact mapRanges_total C L hL _
+
+theorem iterRange_total (hC : CoreTotal C) {DT : Type} (L : Localize C DT) (hL : ∀ n, ∃ d, L.datetime n = .ok d)
+    (e : C.Expr) (h : C.Hol) (a b : DT) : ∃ l, iterRange C L e h a b = .ok l := by
+  unfold iterRange Core.iterNaive
+  obtain ⟨l, hl⟩ := hC.streamNaive e h L.ev (min instEnd (L.naive a)) (min instEnd (L.naive b))
+  rw [hl]
+  exact localizeRanges_total C L hL l
+
+/-- a stream that can be collected can be pulled -/
+theorem collect_cons {iv : Interval} {rest : NStream} {l : List Interval}
+    (h : (NStream.cons iv rest).collect = .ok l) : ∃ l', rest.collect = .ok l' ∧ l = iv :: l' := by
+  simp only [NStream.collect] at h
+  cases hr : rest.collect with
+  | error p => rw [hr] at h; cases h
+  | ok l' => rw [hr] at h; cases h; exact ⟨l', rfl, rfl⟩
+
+theorem first_total {s : NStream} {l : List Interval} (h : s.collect = .ok l) : s.first = .ok l.head? := by
+  cases s with
+  | done => cases h; rfl
+  | panic p => cases h
+  | cons iv rest =>
+    obtain ⟨l', _, rfl⟩ := collect_cons h
+    rfl
+
+theorem firstNaive_total (hC : CoreTotal C) (e : C.Expr) (h : C.Hol) (ev : EvLoc C.Zone) (a b : Int) :
+    ∃ r, C.firstNaive e h ev a b = .ok r := by
+  obtain ⟨l, hl⟩ := hC.streamNaive e h ev a b
+  exact ⟨_, first_total hl⟩
+
+/-! ### the lazily pulled first item is the head of the collected pipeline -/
+
+theorem nextKept_of_collect {DT : Type} (L : Localize C DT) {s : NStream} {l fl : List Interval}
+    (hs : s.collect = .ok l) (hf : filterRanges C L l = .ok fl) :
+    (fl = [] ∧ nextKept C L s = .ok none)
+    ∨ ∃ x rest l' fl', fl = x :: fl' ∧ nextKept C L s = .ok (some (x, rest))
+        ∧ rest.collect = .ok l' ∧ filterRanges C L l' = .ok fl' := by
+  induction s generalizing l fl with
+  | done =>
+    cases hs
+    cases hf
+    exact .inl ⟨rfl, rfl⟩
+  | panic p => cases hs
+  | cons iv rest ih =>
+    obtain ⟨l', hl', rfl⟩ := collect_cons hs
+    simp only [filterRanges] at hf
+    cases hk : keepRange C L iv with
+    | error p => rw [hk] at hf; cases hf
+    | ok k =>
+      rw [hk] at hf
+      dsimp only at hf
+      cases hr : filterRanges C L l' with
+      | error p => rw [hr] at hf; cases hf
+      | ok xs =>
+        rw [hr] at hf
+        cases hf
+        cases k with
+        | true =>
+          refine .inr ⟨iv, rest, l', xs, rfl, ?_, hl', hr⟩
+          simp only [nextKept, hk]
+        | false =>
+          have := ih hl' hr
+          simp only [nextKept, hk]
+          exact this
+
+theorem absorb_of_collect {DT : Type} (L : Localize C DT) {s : NStream} {l fl : List Interval} (curr : Interval)
+    (hs : s.collect = .ok l) (hf : filterRanges C L l = .ok fl) :
+    ∃ c tl, absorb C L curr s = .ok c ∧ Tz.mergeFrom curr fl = c :: tl := by
+  induction s generalizing l fl curr with
+  | done =>
+    cases hs
+    cases hf
+    exact ⟨curr, [], rfl, rfl⟩
+  | panic p => cases hs
+  | cons iv rest ih =>
+    obtain ⟨l', hl', rfl⟩ := collect_cons hs
+    simp only [filterRanges] at hf
+    cases hk : keepRange C L iv with
+    | error p => rw [hk] at hf; cases hf
+    | ok k =>
+      rw [hk] at hf
+      dsimp only at hf
+      cases hr : filterRanges C L l' with
+      | error p => rw [hr] at hf; cases hf
+      | ok xs =>
+        rw [hr] at hf
+        cases hf
+        cases k with
+        | false =>
+          simp only [absorb, hk]
+          exact ih curr hl' hr
+        | true =>
+          simp only [absorb, hk, if_true, Tz.mergeFrom]
+          split
+          · exact ih _ hl' hr
+          · exact ⟨curr, _, rfl, rfl⟩
+
+/-- **lazy = collected**: when the whole naive stream can be collected and filtered, the first item
+`next_change` pulls lazily is the head of the filtered and merged list -/
+theorem firstMerged_of_collect {DT : Type} (L : Localize C DT) {s : NStream} {l fl : List Interval}
+    (hs : s.collect = .ok l) (hf : filterRanges C L l = .ok fl) :
+    firstMerged C L s = .ok (Tz.mergeRanges fl).head? := by
+  unfold firstMerged
+  obtain ⟨rfl, hn⟩ | ⟨x, rest, l', fl', rfl, hn, hl', hf'⟩ := nextKept_of_collect C L hs hf
+  · rw [hn]; rfl
+  · rw [hn]
+    dsimp only
+    obtain ⟨c, tl, ha, hm⟩ := absorb_of_collect C L x hl' hf'
+    rw [ha]
+    dsimp only [Tz.mergeRanges]
+    rw [hm]
+    rfl
+
+/-- … hence the first item of `iter_range` is the head of the collected `iter_range` -/
+theorem firstOfRange_of_iterRange {DT : Type} (L : Localize C DT) (e : C.Expr) (h : C.Hol) (a b : DT)
+    (rs : List (Range DT)) (hr : iterRange C L e h a b = .ok rs) :
+    firstOfRange C L e h a b = .ok rs.head? := by
+  unfold iterRange Core.iterNaive at hr
+  unfold firstOfRange
+  cases hs : (C.streamNaive e h L.ev (min instEnd (L.naive a)) (min instEnd (L.naive b))).collect with
+  | error p => rw [hs] at hr; cases hr
+  | ok l =>
+    rw [hs] at hr
+    dsimp only at hr
+    unfold localizeRanges at hr
+    cases hf : filterRanges C L l with
+    | error p => rw [hf] at hr; cases hr
+    | ok fl =>
+      rw [hf] at hr
+      dsimp only at hr
+      rw [firstMerged_of_collect C L hs hf]
+      cases hm : Tz.mergeRanges fl with
+      | nil =>
+        rw [hm] at hr
+        cases hr
+        rfl
+      | cons iv ivs =>
+        rw [hm] at hr
+        simp only [mapRanges] at hr
+        dsimp only [List.head?]
+        cases hx : mapRange C L iv with
+        | error p => rw [hx] at hr; cases hr
+        | ok x =>
+          rw [hx] at hr
+          dsimp only at hr
+          cases hxs : mapRanges C L ivs with
+          | error p => rw [hxs] at hr; cases hr
+          | ok xs => rw [hxs] at hr; cases hr; rfl
+
+theorem nextKept_total {DT : Type} (L : Localize C DT) (hL : ∀ n, ∃ d, L.datetime n = .ok d)
+    {s : NStream} {l : List Interval} (hs : s.collect = .ok l) : ∃ r, nextKept C L s = .ok r := by
+  obtain ⟨fl, hf⟩ := filterRanges_total C L hL l
+  obtain ⟨_, hn⟩ | ⟨x, rest, _, _, _, hn, _, _⟩ := nextKept_of_collect C L hs hf
+  · exact ⟨_, hn⟩
+  · exact ⟨_, hn⟩
+
+theorem firstMerged_total {DT : Type} (L : Localize C DT) (hL : ∀ n, ∃ d, L.datetime n = .ok d)
+    {s : NStream} {l : List Interval} (hs : s.collect = .ok l) : ∃ r, firstMerged C L s = .ok r := by
+  obtain ⟨fl, hf⟩ := filterRanges_total C L hL l
+  exact ⟨_, firstMerged_of_collect C L hs hf⟩
+
 theorem nextChange_total (hC : CoreTotal C) {DT : Type} (L : Localize C DT) (hL : ∀ n, ∃ d, L.datetime n = .ok d)
     (e : C.Expr) (h : C.Hol) (t : DT) : ∃ r, Py.nextChange C L e h t = .ok r := by
   unfold Py.nextChange
@@ -556,7 +849,8 @@ theorem nextChange_total (hC : CoreTotal C) {DT : Type} (L : Localize C DT) (hL 
   rw [hstop]
   dsimp only
   unfold firstOfRange
-  obtain ⟨f, hf⟩ := hC.firstNaive e h L.ev (min instEnd (L.naive t)) (min instEnd (L.naive stop))
+  obtain ⟨l, hl⟩ := hC.streamNaive e h L.ev (min instEnd (L.naive t)) (min instEnd (L.naive stop))
+  obtain ⟨f, hf⟩ := firstMerged_total C L hL hl
   rw [hf]
   cases f with
   | none => exact ⟨_, rfl⟩
